@@ -461,7 +461,9 @@ moments_est!(average::Moments4, 4usize);
 moments_est!(M4, 4usize);
 moments_est!(M5, 5usize);
 moments_est!(M6, 6usize);
+moments_est!(M7, 7usize);
 moments_est!(M8, 8usize);
+moments_est!(M9, 9usize);
 moments_est!(M10, 10usize);
 
 impl Est for average::Min {
